@@ -91,7 +91,8 @@ def main(tier, only=None):
         shapes.append(('hx_class_names', [ci, 0], 'class_names/%d' % ci))
     # the logging macros with the level pre-check (LOG_LEVEL / detail::discard_by_level), log given by id and by name
     for policy in (0, 1, 2):
-        for sq in [(0,), (1,), (2,), (3,), (4,), (1, 2), (2, 1), (3, 1), (1, 1), (2, 3), (4, 2)]:
+        # (log filter kinds..., then destination kinds in positions 2 and 3)
+        for sq in [(0,), (1,), (2,), (3,), (4,), (1, 2), (2, 1), (3, 1), (1, 1), (2, 3), (4, 2), (0, 0, 1, 0), (0, 0, 1, 2), (1, 0, 2, 1), (0, 0, 3, 1), (2, 0, 0, 3), (0, 0, 1, 1)]:
             kinds = sum(k << (4 * i) for i, k in enumerate(sq))
             for how in ((0, 1) if policy == 2 or tier != 'quick' else (0,)):
                 shapes.append(('hx_macros', [policy, kinds, how], 'macros/p%d/%s/%s' % (policy, '-'.join(KN[k] if k else 'none' for k in sq), 'id' if how == 0 else 'name')))
